@@ -218,6 +218,62 @@ theorem projectOnAny_least_squares (B : List (List Rat)) (se p : List Rat) (h : 
   rw [c3] at hnn
   linarith
 
+/-! ### the projected signal does not depend on which solution of the normal equations is used -/
+
+/-- two solutions of the normal equations give signals that no vector can tell apart -/
+theorem normal_solutions_same_signal (B : List (List Rat)) (se x x' : List Rat)
+    (hx : ∀ u ∈ B, dot u (lincomb x B) = dot u se) (hx' : ∀ u ∈ B, dot u (lincomb x' B) = dot u se) (w : List Rat) :
+    dot (lincomb x B) w = dot (lincomb x' B) w := by
+  have hd : ∀ u ∈ B, dot (vsub (lincomb x B) (lincomb x' B)) u = dot [] u := by
+    intro u hu
+    rw [dot_vsub_left, dot_comm _ u, dot_comm _ u, hx u hu, hx' u hu]
+    simp
+  have h0 : ∀ y, dot (vsub (lincomb x B) (lincomb x' B)) (lincomb y B) = 0 := by
+    intro y
+    rw [dot_lincomb_congr _ _ y B hd]
+    simp
+  have hself : dot (vsub (lincomb x B) (lincomb x' B)) (vsub (lincomb x B) (lincomb x' B)) = 0 := by
+    rw [dot_vsub_right, h0 x, h0 x']
+    ring
+  have := dot_eq_zero_of_self _ w hself
+  rw [dot_vsub_left] at this
+  linarith
+
+/-- lists of one length that every vector pairs equally with are equal -/
+theorem eq_of_dot_eq : ∀ (a b : List Rat), a.length = b.length → (∀ w, dot a w = dot b w) → a = b
+  | [], [], _, _ => rfl
+  | [], _ :: _, h, _ => by simp at h
+  | _ :: _, [], h, _ => by simp at h
+  | a :: as, b :: bs, hl, h => by
+      have h1 := h [1]
+      simp only [dot_cons_cons, dot_nil_right, mul_one, add_zero] at h1
+      have h2 : ∀ w, dot as w = dot bs w := by
+        intro w
+        have := h (0 :: w)
+        simpa using this
+      rw [h1, eq_of_dot_eq as bs (by simpa using hl) h2]
+
+/-- … hence, for vectors of one common length, literally the same signal -/
+theorem normal_solutions_eq (N : Nat) (B : List (List Rat)) (hB : ∀ b ∈ B, b.length = N) (se x x' : List Rat)
+    (hlx : x.length = B.length) (hlx' : x'.length = B.length)
+    (hx : ∀ u ∈ B, dot u (lincomb x B) = dot u se) (hx' : ∀ u ∈ B, dot u (lincomb x' B) = dot u se) :
+    lincomb x B = lincomb x' B := by
+  apply eq_of_dot_eq _ _ _ (normal_solutions_same_signal B se x x' hx hx')
+  cases B with
+  | nil => simp
+  | cons b bs =>
+    have hx0 : x ≠ [] := by intro h; rw [h] at hlx; simp at hlx
+    have hx0' : x' ≠ [] := by intro h; rw [h] at hlx'; simp at hlx'
+    rw [length_lincomb N x _ hB hx0 (by simp), length_lincomb N x' _ hB hx0' (by simp)]
+
+/-- **any solution will do**: whatever coefficient vector `c` solves the normal equations (for instance the
+    minimum-norm one `np.linalg.lstsq` returns), the combination `Σ c_l B_l` is the signal `projectOnAny` returns. -/
+theorem projectOnAny_eq_of_solution (N : Nat) (B : List (List Rat)) (hB : ∀ b ∈ B, b.length = N) (se c : List Rat)
+    (hc : c.length = B.length) (hsol : ∀ u ∈ B, dot u (lincomb c B) = dot u se) :
+    projectOnAny B se = some (padd (lincomb c B) (zeros se.length)) := by
+  obtain ⟨x, hx, hsat, hp⟩ := projectOnAny_spec B se
+  rw [hp, normal_solutions_eq N B hB se x c hx hc hsat hsol]
+
 theorem mapM_isSome_of_forall {α β : Type} (f : α → Option β) : ∀ l : List α, (∀ a ∈ l, (f a).isSome) →
     (l.mapM f).isSome
   | [], _ => rfl
